@@ -7,7 +7,9 @@ LEAN_MODULE = "Ucfg.Props.C14"
 CORRESPONDENCE = "Err values of Unpack/Path/Conv models ~ errors returned by NewFrom / Merge / Unpack / getters / Remove / Has / CountField"
 RULE = ("valid (configuration, target type) pairs from C04's generators with exactly ONE fault injected at a random setting at any depth "
         "(inside lists, maps, pointers, inline fields): wrong kind, failed conversion, out of range, failed validator, wrong list "
-        "length, unparsable duration/regexp, a primitive where an object is required; with and without MetaData(source). Oracle: the "
+        "length, unparsable duration/regexp, a primitive where an object is required; with and without MetaData(source); in a third of the "
+        "cases one list of the configuration is grown to its final form by a later Merge (AppendValues, PrependValues, or a longer list "
+        "merged over a shorter one) so that list elements get their paths from fields.append / the merge code. Oracle: the "
         "call fails with a ucfg.Error (typed, Reason and Class set) whose text names the full dotted path of exactly that setting and, "
         "with metadata, the source; plus every error produced by the low-level API in C12-style histories is typed. Non-trivial: the "
         "fault is nested at depth >= 2. Distinct by (fault kind, depth, container kinds on the way, with/without source).")
@@ -35,14 +37,47 @@ def gen(rng, tier):
         c = {"k": "unpack", "ty": ty, "old": None, "from": cfg, "validFrom": valid, "copts": [], "uopts": [], "faultPath": p, "strictErr": False,
              "_tag": "fault/" + kind, "_nt": p.count(".") >= 1,
              "_sig": "%s|%d|%s" % (kind, p.count("."), TG.type_sig(ty, 1))}
+        if rng.chance(0.35):
+            # grow one of the lists by a later merge (append / prepend / a longer list over a shorter one): the final
+            # configuration is the same, so is the path of the faulty setting
+            lists = list_positions(cfg)
+            if lists:
+                pth, L = rng.pick(lists)
+                k = 1 + rng.below(len(L) - 1)
+                how = rng.pick(["Append", "Prepend", "longer"])
+                def nestp(v):
+                    for seg in reversed(pth):
+                        v = M([(seg, v)])
+                    return v
+                if how == "Append":
+                    c["from"] = TG.replace_at(cfg, pth, A(L[:k])); c["merges"] = [{"b": nestp(A(L[k:])), "opts": [opt("Append")]}]
+                elif how == "Prepend":
+                    c["from"] = TG.replace_at(cfg, pth, A(L[k:])); c["merges"] = [{"b": nestp(A(L[:k])), "opts": [opt("Prepend")]}]
+                else:
+                    c["from"] = TG.replace_at(cfg, pth, A(L[:k])); c["merges"] = [{"b": nestp(A(L)), "opts": []}]
+                c["_tag"] += "+grown"
+                c["_sig"] += "|grown-" + how
         if rng.chance(0.4):
             src = rng.pick(["conf.yml", "/etc/app/a.json", "in-memory"])
             c["copts"] = [{"o": "MetaData", "v": src}]
+            for m in c.get("merges", []):
+                m["opts"] = m["opts"] + [{"o": "MetaData", "v": src}]
             c["source"] = src
             c["_sig"] += "|src"
         made += 1
         yield c
     yield from gen_api_errors(rng.fork("api"), n // 5)
+
+
+def list_positions(cfg, path=()):
+    """lists with at least two elements reachable through dictionaries only: [(path of keys, elements)]"""
+    out = []
+    if isinstance(cfg, dict) and "m" in cfg:
+        for k, v in cfg["m"]:
+            if isinstance(v, dict) and "a" in v and len(v["a"]) >= 2:
+                out.append((path + (k,), v["a"]))
+            out += list_positions(v, path + (k,))
+    return out
 
 
 def gen_api_errors(rng, n):
@@ -71,6 +106,9 @@ def oracle(case, impl, model):
         if isinstance(res, dict) and "err" in res and res["err"].get("typed") is False:
             return (False, "%s(%s) returned an error that is not a ucfg.Error" % (rd["r"], rd.get("name")))
     return (True, "")
+
+
+fix_candidate = TG.fix_typed_candidate
 
 
 def nontrivial(case, impl):
